@@ -5,3 +5,6 @@ add("C14", "exploration", "runtime monitoring: independent grammar/value oracles
 add("C10", "exploration", "runtime monitoring: reference field-set model stepped alongside the real FieldMap/Message API; independent wire scanner, parse-back and copy comparison on every build",
     "Random and bounded-exhaustive programs of field-map operations are executed on real Message objects; after every build the bytes are scanned by an independent codec and compared with a reference model of the currently set fields, re-parsed and re-read through the getters, and copies are compared byte for byte.",
     "DESIGN.md §4 C10")
+add("C11", "exploration", "runtime monitoring: independent serializer produces ground-truth messages; parse results read through getters and compared; every single-field framing corruption must be refused",
+    "Messages with known content are built by an independent serializer, parsed by the real ParseMessage* in four dictionary modes (incl. reused Message objects and XMLData), and every field is read back from its section; each message is followed by its BodyLength and leading-order corruptions, all of which must return an error.",
+    "DESIGN.md §4 C11")
